@@ -145,8 +145,9 @@ def _canon_cyto(items):
 ACCESSORS = ["statements", "source", "target", "intermediate", "columns", "cyto_table", "cyto_column", "summary"]
 
 
-def run_case(case):
-    """case keys: sql, dialect, metadata, provider, silent, config{}, env{}, order[], want[], verbose"""
+def run_case(case, provider=None):
+    """case keys: sql, dialect, metadata, provider, silent, config{}, env{}, order[], want[], verbose
+    provider: optional live provider object to use instead of building one from the case"""
     from sqllineage.config import SQLLineageConfig
     from sqllineage.runner import LineageRunner
     from sqllineage.utils.constant import LineageLevel
@@ -168,7 +169,7 @@ def run_case(case):
                 if cfg:
                     ctx = SQLLineageConfig(**cfg)
                     ctx.__enter__()
-                prov = make_provider(case)
+                prov = provider if provider is not None else make_provider(case)
                 kw = {}
                 if prov is not None:
                     kw["metadata_provider"] = prov
